@@ -670,7 +670,23 @@ func (w *World) c20Final() {
 			}
 		}
 	}
-	exp, _, experr := c20Expected(w.plan, cs, saved)
+	exp, srcHost, experr := c20Expected(w.plan, cs, saved)
+	// (a) every request of every task goes to the URL of its own source as the
+	// merged configuration defines it (file entries override database entries)
+	okHost := map[string]bool{}
+	for _, h := range srcHost {
+		okHost[h] = true
+	}
+	var hosts []string
+	for h := range st.hostsUsed {
+		hosts = append(hosts, h)
+	}
+	sort.Strings(hosts)
+	for _, h := range hosts {
+		if !okHost[h] {
+			w.violate("wrong-source-url", "a task sent requests to %s, which is not the URL of any source of the merged configuration (file sources override database sources of the same name)", h)
+		}
+	}
 	if experr != "" {
 		// (b) unknown source: Run must have reported an error and nothing may have started
 		if len(st.runErrs) == 0 {
@@ -779,7 +795,15 @@ func GenC20(seed uint64) *Plan {
 	}
 	if g.chance(40) {
 		// a database source clashing with a file source: points at a dead host, the file entry must win
-		cs.DBSources = append(cs.DBSources, C20DBSource{Name: sp.Name, ChainID: int(sp.ChainID), URL: "http://dead-g0-r0.sim"})
+		// (with the same chain id, or with a smaller or larger one)
+		cid := int(sp.ChainID)
+		switch g.R.IntN(3) {
+		case 1:
+			cid = int(sp.ChainID) + g.between(1, 50)
+		case 2:
+			cid = max(1, int(sp.ChainID)-g.between(1, 50))
+		}
+		cs.DBSources = append(cs.DBSources, C20DBSource{Name: sp.Name, ChainID: cid, URL: "http://dead-g0-r0.sim"})
 	}
 	if g.chance(30) {
 		// a source that exists only in the database, used by a file or database integration
